@@ -30,6 +30,7 @@ tail -c 3000 $LOG.demo_with > "$OUT/demo_output_with_change.txt"; tail -c 3000 $
 # run the checks against /repo with the change applied
 cd $V
 git -C /repo apply "$OUT/patch.diff" || { echo "patch does not apply to /repo"; exit 5; }
+KEEP=$(mktemp -d /var/tmp/evidence.keep.XXXXXX); cp -r $V/evidence $KEEP/   # evidence/ must keep describing the unchanged tree
 RES=""
 for P in $PROPS; do
   ./vcheck $P > $LOG.check_$P 2>&1; RC=$?
@@ -39,6 +40,7 @@ for P in $PROPS; do
   RES="$RES{\"check\":\"$P\",\"exit\":$RC,\"violation_lines\":$NV,\"keys\":\"$(echo "$KEYS" | sed 's/"/\\"/g' | cut -c1-600)\"},"
 done
 git -C /repo checkout -- .
+rm -rf $V/evidence; cp -r $KEEP/evidence $V/evidence; rm -rf $KEEP
 python3 - "$OUT/meta.json" "$T1" "$D1" "$D0" "[${RES%,}]" <<'EOF'
 import json, sys
 p, t1, d1, d0, res = sys.argv[1:6]
